@@ -715,6 +715,98 @@ theorem c08_streams_for_current_source :
 
 end streams
 
+/-! ## the time-generation service: fresh object = used object -/
+
+section times
+variable {V I W T : Type}
+
+namespace C08
+
+theorem trun_append (gen : Nat → Nat → V) (tc : TimeCfg V I W T) (st : TState I) (h₁ h₂ : List (TOp I W)) :
+    (trun gen tc st (h₁ ++ h₂)).1 = (trun gen tc (trun gen tc st h₁).1 h₂).1 := by
+  induction h₁ generalizing st with
+  | nil => rfl
+  | cons op rest ih => simp [trun, ih]
+
+end C08
+
+/-- **the Livetime/TimeGenerator object carries no draw state**: a history of draws (any windows,
+sizes, services), unrelated consumption and reseeds — anything but assigning new intervals —
+leaves the object exactly as it was. -/
+theorem c08_time_object_unchanged (gen : Nat → Nat → V) (tc : TimeCfg V I W T) (st : TState I)
+    (h : List (TOp I W)) (hh : ∀ op ∈ h, op.setsIvs = false) : (trun gen tc st h).1.ivs = st.ivs := by
+  induction h generalizing st with
+  | nil => rfl
+  | cons op rest ih =>
+    simp only [trun]
+    rw [ih _ (fun o ho => hh o (List.mem_cons_of_mem _ ho))]
+    have := hh op (by simp)
+    cases op <;> simp_all [tstep, TOp.setsIvs]
+
+/-- a history that does not use service `a` leaves `a` where it was -/
+theorem c08_time_frame (gen : Nat → Nat → V) (tc : TimeCfg V I W T) (st : TState I) (a : Nat)
+    (h : List (TOp I W)) (hh : ∀ op ∈ h, op.touches a = false) : (trun gen tc st h).1.world a = st.world a := by
+  induction h generalizing st with
+  | nil => rfl
+  | cons op rest ih =>
+    simp only [trun]
+    rw [ih _ (fun o ho => hh o (List.mem_cons_of_mem _ ho))]
+    have ht := hh op (by simp)
+    cases op with
+    | draw s win size =>
+      simp only [TOp.touches, beq_eq_false_iff_ne, ne_eq] at ht
+      exact C08.set_other _ _ _ _ (fun e => ht e.symm)
+    | setIvs J => rfl
+    | other s k =>
+      simp only [TOp.touches, beq_eq_false_iff_ne, ne_eq] at ht
+      exact C08.set_other _ _ _ _ (fun e => ht e.symm)
+    | reseed s seed =>
+      simp only [TOp.touches, beq_eq_false_iff_ne, ne_eq] at ht
+      exact C08.set_other _ _ _ _ (fun e => ht e.symm)
+
+/-- **used object = fresh object**: a draw (window or not) with service `a` after an arbitrary
+history of earlier draws with *other* services on the same object — windowed, plain, different
+windows, interleaved with unrelated consumption — returns what an untouched object returns. -/
+theorem c08_time_fresh_vs_used (gen : Nat → Nat → V) (tc : TimeCfg V I W T) (st : TState I) (a : Nat)
+    (win : Option W) (size : Nat) (h : List (TOp I W))
+    (h1 : ∀ op ∈ h, op.setsIvs = false) (h2 : ∀ op ∈ h, op.touches a = false) :
+    (tstep gen tc (trun gen tc st h).1 (.draw a win size)).2 = (tstep gen tc st (.draw a win size)).2 := by
+  simp only [tstep]
+  rw [c08_time_object_unchanged gen tc st h h1, c08_time_frame gen tc st a h h2]
+
+/-- **same seed, same times**: two executions with arbitrary pasts on their objects (including
+draws with `a` itself, from any worlds), same intervals: once `a` is reseeded with `s`, the same
+draw returns the same times — those of a new object with a new service of seed `s`. -/
+theorem c08_time_same_seed_same_times (gen : Nat → Nat → V) (tc : TimeCfg V I W T) (st₁ st₂ : TState I)
+    (hi : st₁.ivs = st₂.ivs) (h₁ h₂ : List (TOp I W)) (a s : Nat) (win : Option W) (size : Nat)
+    (hh₁ : ∀ op ∈ h₁, op.setsIvs = false) (hh₂ : ∀ op ∈ h₂, op.setsIvs = false) :
+    (tstep gen tc (trun gen tc st₁ (h₁ ++ [.reseed a s])).1 (.draw a win size)).2 =
+        some (tc.draw st₁.ivs win size ((Stream.fresh s).view gen)) ∧
+      (tstep gen tc (trun gen tc st₁ (h₁ ++ [.reseed a s])).1 (.draw a win size)).2 =
+        (tstep gen tc (trun gen tc st₂ (h₂ ++ [.reseed a s])).1 (.draw a win size)).2 := by
+  have key : ∀ (st : TState I) (h : List (TOp I W)), (∀ op ∈ h, op.setsIvs = false) →
+      (tstep gen tc (trun gen tc st (h ++ [.reseed a s])).1 (.draw a win size)).2 =
+        some (tc.draw st.ivs win size ((Stream.fresh s).view gen)) := by
+    intro st h hh
+    rw [C08.trun_append]
+    simp only [trun, tstep, C08.set_same]
+    rw [c08_time_object_unchanged gen tc st h hh]
+  exact ⟨key st₁ h₁ hh₁, by rw [key st₁ h₁ hh₁, key st₂ h₂ hh₂, hi]⟩
+
+/-- assigning new intervals is the one operation that matters: afterwards every draw uses the
+intervals assigned last, whatever was drawn in between -/
+theorem c08_time_intervals_last_set (gen : Nat → Nat → V) (tc : TimeCfg V I W T) (st : TState I)
+    (J : I) (h h' : List (TOp I W)) (hh : ∀ op ∈ h', op.setsIvs = false) :
+    (trun gen tc st (h ++ [.setIvs J] ++ h')).1.ivs = J := by
+  rw [C08.trun_append, c08_time_object_unchanged gen tc _ h' hh, C08.trun_append]
+  simp [trun, tstep]
+
+end times
+
+-- non-vacuity: a windowed draw, an unrelated consumer and a plain draw on other services
+example : ∀ op ∈ ([TOp.draw 1 (some (2, 3)) 5, TOp.other 2 9, TOp.draw 1 none 4] : List (TOp Nat (Nat × Nat))),
+    op.setsIvs = false ∧ op.touches 0 = false := by decide
+
 -- non-vacuity: a history that leaves service 0 alone, and one trial whose minimiser consumes words
 example : ∀ op ∈ [Op.draw 1 7, Op.reseed 2 5, Op.trials 1 (some 2) 3 2], op.touches 0 = false := by decide
 example : (parTrials (fun s p => s + p) id
